@@ -43,6 +43,18 @@ def install_demo(src, wt):
             mount = re.search(r'#\[cfg\(test\)\]\s*#\[path\s*=\s*"([^"]+)"\]\s*mod\s+(\w+);', head)
             parent = [x for x in re.findall(r'(src/[\w/]+\.rs)', head)
                       if os.path.exists(os.path.join(wt, x)) and not x.endswith("/" + m + ".rs")]
+            child = re.search(r"[Cc]hild module of `?((?:crate::)?[a-z_0-9]+(?:::[a-z_0-9]+)+)`?", head)
+            if not (mount and parent) and child:
+                # "child module of socket::v3": src/socket/v3/<demo>.rs plus `mod <demo>;` at the end of src/socket/v3.rs
+                mp = child.group(1).replace("crate::", "").split("::")
+                pf = os.path.join(wt, "src", *mp) + ".rs"
+                if os.path.exists(pf):
+                    os.makedirs(os.path.join(wt, "src", *mp), exist_ok=True)
+                    shutil.copy(f, os.path.join(wt, "src", *mp, m + ".rs"))
+                    with open(pf, "a") as fh:
+                        fh.write("\n#[cfg(test)]\nmod %s;\n" % m)
+                    mods.append(m)
+                    continue
             if mount and parent:
                 parent = parent[0]
                 dest = os.path.normpath(os.path.join(wt, os.path.dirname(parent), mount.group(1)))
